@@ -203,6 +203,10 @@ def B_pspace(I, st, fr, tag, cfg):
     o.fields['_ProductSpace__spaces'] = tuple(leaf_space(I, '%s%d' % (tag, i)) for i in range(k))
     o.fields['_ProductSpace__weighting'] = B_constw(PS + 'ProductSpaceConstWeighting')(I, st, fr, tag + 'w', cfg)
     o.fields['_LinearSpace__field'] = om.field_obj(I, 'real')
+    # class invariant established by __init__:  is_power_space == all(spc == spaces[0] for spc in spaces[1:])
+    sps = o.fields['_ProductSpace__spaces']
+    flags = [as_sbool(I.py_eq(sp, sps[0], fr)) for sp in sps[1:]]
+    o.fields['_ProductSpace__is_power_space'] = core.s_and(*flags) if flags else True
     o.partial = True
     return o
 
